@@ -127,6 +127,17 @@ def history(rnd, length, names=None):
         snapshot(),
     ]
     for _ in range(length):
+        if rnd.random() < 0.12:
+            # freshness probe: the result of a call is mutated, the same call is made again - it must not see the mutation
+            name = rnd.choice([n for n in ('stringSplit', 'arrayCopy', 'arraySlice', 'objectKeys', 'arrayNew', 'arrayNewSize') if n in names] or [names[0]])
+            e = call_for(name, rnd)
+            st.append({'k': 'expr', 'name': 'a3', 'e': e})
+            st.append(snapshot())
+            st.append({'k': 'expr', 'name': 'x', 'e': J.call('arrayPush', J.var('a3'), J.num(99))})
+            st.append(snapshot())
+            st.append({'k': 'expr', 'name': 'x', 'e': e})
+            st.append(snapshot())
+            continue
         name = rnd.choice(names)
         grows = name in ('stringRepeat', 'arrayExtend', 'stringReplace', 'arrayNewSize', 'objectAssign')
         tgt = 'x' if (grows or rnd.random() < 0.7) else rnd.choice(
